@@ -719,6 +719,7 @@ type c08GCS struct {
 	Data  HexBytes   `json:"data"`
 	NForm bool       `json:"n_prefixed"` // parse with FromNBytes (CompactSize(N) || data)
 	Query []HexBytes `json:"query"`
+	RawN  bool       `json:"raw_n,omitempty"` // NForm only: Data is the whole input, count prefix included
 }
 
 func evalC08GCS(c c08GCS, o *Obs) error {
@@ -726,7 +727,7 @@ func evalC08GCS(c c08GCS, o *Obs) error {
 	var f *gcs.Filter
 	var err error
 	input := []byte(c.Data)
-	if c.NForm {
+	if c.NForm && !c.RawN {
 		input = append(compactSize(uint64(c.N)), c.Data...)
 	}
 	if e := guarded("gcs.FromBytes", len(input), o, func() {
@@ -779,6 +780,18 @@ var kC08GCS = register(&Kind[c08GCS]{
 	Prop: "C08", Name: "gcs",
 	Gen: func(t *rapid.T) c08GCS {
 		c := c08GCS{P: uint8(rapid.SampledFrom([]int{0, 1, 8, 19, 20, 32, 33, 255}).Draw(t, "p")), NForm: rapid.Bool().Draw(t, "nform")}
+		if c.NForm && rapid.IntRange(0, 3).Draw(t, "rawn") == 0 {
+			// the bytes as they come, count prefix included: every discriminant byte with every short tail
+			c.RawN = true
+			c.M = rapid.SampledFrom([]uint64{1, 784931, 1 << 20}).Draw(t, "mraw")
+			first := rapid.SampledFrom([]byte{0x00, 0x01, 0xfc, 0xfd, 0xfd, 0xfe, 0xfe, 0xff, 0xff}).Draw(t, "disc")
+			tail := rapid.SliceOfN(rapid.SampledFrom([]byte{0, 1, 0xff, 0x80}), 0, 10).Draw(t, "tail")
+			c.Data = append([]byte{first}, tail...)
+			if rapid.IntRange(0, 5).Draw(t, "nothing") == 0 {
+				c.Data = nil
+			}
+			return c
+		}
 		// declared N: capped at 2^26 so that a defective tree over-allocates measurably (~1 GiB) but does not kill the sandbox
 		c.N = rapid.SampledFrom([]uint32{0, 1, 2, 100, 65536, 1 << 20, 1 << 25, 1 << 26}).Draw(t, "n")
 		c.M = rapid.SampledFrom([]uint64{0, 1, 784931, 1 << 20, 1 << 32, 1 << 40}).Draw(t, "m")
